@@ -88,6 +88,10 @@ func zzAuthGate(envLen, tokLen int) {
 func VerifC06_Gate2() { zzAuthGate(2, 2) }
 func VerifC06_Gate3() { zzAuthGate(3, 3) }
 
+// credentials shorter / longer than the configured secret (prefixes, extensions)
+func VerifC06_GateShortToken() { zzAuthGate(3, 2) }
+func VerifC06_GateLongToken()  { zzAuthGate(2, 3) }
+
 // Routes without an auth declaration are unaffected.
 func VerifC06_NoAuthUnaffected() {
 	zzverif.Setenv(envJWTSecret, zzverif.StringFrom("GLYPH_JWT_SECRET", 2, "s x"))
